@@ -9,7 +9,7 @@
               al  the allele tuple in written order, raw an opaque id of the
               complete sample column (GT and PS text)
      BAM  : read -> [hp, ps]   (-1 = untagged)
-     reads: read -> [smp, tpl (template id), cov (seq of the sites the read fully covers), al (seq of the alleles shown there)]
+     reads: read -> [smp, tpl (template id: mates, and with linked reads the reads of one barcode molecule, share it), cov (seq of the sites the read fully covers), al (seq of the alleles shown there)]
 
    Property clauses relate W to V0, U and B.  The abstract commands below are the
    DESIGN of the three subcommands (conventions HP = haplotype index + 1, PS = phase
